@@ -55,6 +55,9 @@ type Gen struct {
 	min map[string]int // minimal recursion depth needed per record; -1 = uninhabited
 	// small > 0 while the elements of a many-element container are drawn: they stay tiny
 	small int
+	// giants counts the giant arrays drawn so far: one per generator (a value of megabytes
+	// is enough; a dozen of them only costs time)
+	giants int
 }
 
 // manyLadder holds element counts around the preallocation hint of the stream decoders
@@ -175,8 +178,9 @@ func (g *Gen) Type(t schema.Type, budget int) Value {
 			if l, ok := g.ladder(); ok && l <= 300 {
 				n = l // 255/256/257 elements of a small scalar
 			}
-			if g.Cfg.Giant > 0 && g.small == 0 && r.Chance(1, g.Cfg.Giant) {
+			if g.Cfg.Giant > 0 && g.small == 0 && g.giants == 0 && r.Chance(1, g.Cfg.Giant) {
 				n = 1<<17 - 1 + r.Intn(3)
+				g.giants++
 			}
 		}
 		isMany := false
@@ -187,6 +191,19 @@ func (g *Gen) Type(t schema.Type, budget int) Value {
 			n = 0
 		}
 		v := Value{}
+		if fs := g.S.FixedWire(*t.Array); t.Array.Named != "" && fs > 0 && fs <= 64 && g.Cfg.Giant > 0 && g.small == 0 && g.giants == 0 && r.Chance(1, g.Cfg.Giant) {
+			g.giants++
+			// a GIANT array of fixed-size records (2^16 of them): one drawn element repeated
+			g.small++
+			e := g.Type(*t.Array, budget)
+			g.small--
+			n = 1<<16 - 1 + r.Intn(3)
+			v.Elems = make([]Value, n)
+			for i := range v.Elems {
+				v.Elems[i] = e
+			}
+			return v
+		}
 		if isMany {
 			g.small++
 		}
@@ -489,25 +506,19 @@ func (g *Gen) date() *Date {
 	return d
 }
 
-// key draws a map key of a primitive type; NaN float keys are excluded (domain bound:
-// NaN != NaN makes such maps unobservable as values).
+// key draws a map key of a primitive type. NaN float keys are legal Go map keys (each
+// insert makes a new entry that only iteration finds again) and legal on the wire; a map
+// holds each NaN BIT PATTERN at most once here, so entries stay identifiable by their key
+// bytes.
 func (g *Gen) key(p string) Value {
 	for {
 		v := g.prim(p)
 		switch p {
 		case "float32":
-			f := math.Float32frombits(uint32(v.U))
-			if f != f {
-				continue
-			}
 			if v.U == 0x80000000 {
 				v.U = 0 // -0 == +0 as a Go map key
 			}
 		case "float64":
-			f := math.Float64frombits(v.U)
-			if f != f {
-				continue
-			}
 			if v.U == 1<<63 {
 				v.U = 0
 			}
